@@ -2,6 +2,8 @@
 
 mod builder;
 pub mod iter;
+#[cfg(daachorse_verif)]
+pub mod verif;
 
 use core::mem;
 use core::num::NonZeroU32;
@@ -672,13 +674,19 @@ impl<V> DoubleArrayAhoCorasick<V> {
     unsafe fn next_state_id_unchecked(&self, mut state_id: u32, c: u8) -> u32 {
         // In the loop, state_id is always set to values smaller than states.len(),
         // because child_index_unchecked() and fail() return such values.
+        #[cfg(daachorse_verif)]
+        crate::verif_hooks::enter();
         loop {
+            #[cfg(daachorse_verif)]
+            crate::verif_hooks::probe();
             if let Some(state_id) = self.child_index_unchecked(state_id, c) {
                 return state_id;
             }
             if state_id == ROOT_STATE_IDX {
                 return ROOT_STATE_IDX;
             }
+            #[cfg(daachorse_verif)]
+            crate::verif_hooks::hop();
             state_id = self.states.get_unchecked(usize::from_u32(state_id)).fail();
         }
     }
@@ -690,7 +698,11 @@ impl<V> DoubleArrayAhoCorasick<V> {
     unsafe fn next_state_id_leftmost_unchecked(&self, mut state_id: u32, c: u8) -> u32 {
         // In the loop, state_id is always set to values smaller than states.len(),
         // because child_index_unchecked() and fail() return such values.
+        #[cfg(daachorse_verif)]
+        crate::verif_hooks::enter();
         loop {
+            #[cfg(daachorse_verif)]
+            crate::verif_hooks::probe();
             if let Some(state_id) = self.child_index_unchecked(state_id, c) {
                 return state_id;
             }
@@ -701,6 +713,8 @@ impl<V> DoubleArrayAhoCorasick<V> {
             if fail_id == DEAD_STATE_IDX {
                 return ROOT_STATE_IDX;
             }
+            #[cfg(daachorse_verif)]
+            crate::verif_hooks::hop();
             state_id = fail_id;
         }
     }
